@@ -17,7 +17,8 @@ Writes <out>/results.json and prints one line per mutant: KILLED / SURVIVED / NO
 """
 import argparse, json, os, re, subprocess, sys, tempfile, time, shutil
 
-REPO = "/repo"
+REPO = os.environ.get("VERIF_REPO_SRC", "/repo")
+VERIF = os.path.dirname(os.path.dirname(os.path.abspath(__file__)))
 ENV = dict(os.environ, GOFLAGS="-mod=mod", GOPROXY="off", GOSUMDB="off", GOTOOLCHAIN="local")
 
 
@@ -198,7 +199,7 @@ def main():
             if a.runs:
                 env["VERIF_RUNS"] = str(a.runs)
             t0 = time.time()
-            rc, o = sh(["/verif/check", mu["prop"], "quick"], cwd="/verif", env=env)
+            rc, o = sh([os.path.join(VERIF, "check"), mu["prop"], "quick"], cwd=VERIF, env=env)
             dt = time.time() - t0
             sig = ""
             for l in o.split("\n"):
